@@ -313,6 +313,9 @@ func c03Codec(c *fw.Ctx, idx int) {
 	// encode
 	var got []byte
 	var err error
+	if r.Chance(1, 4) {
+		codecNoise(c)
+	}
 	if c.Guard("panic", func() { got, err = m.marshal(t) }) {
 		return
 	}
